@@ -693,7 +693,7 @@ def execute_index(prop, tier, seed, index):
 
 def minimise(spec, key, still_fails, deadline):
     spec = dict(spec)
-    res = execute_spec(spec)           # pure and process-state free for this engine
+    res = runner._exec_spec_isolated(spec)   # never in the coordinator: a process-wide memo in the library would make it stateful
     mine = [v for v in res['violations'] if v['key'] == key]
     if mine:
         op = mine[0]['op']
@@ -729,4 +729,4 @@ def extra_coverage(prop, tier, agg):
 
 def main(prop, tier, seed, budget):
     return runner.explore(__import__('dst.engines.primsim', fromlist=['x']), prop, tier, seed,
-                          batch=200 if tier == 'quick' else 500, budget_s=budget or (110 if tier == 'quick' else 900))
+                          batch=200 if tier == 'quick' else 500, isolate=30, budget_s=budget or (110 if tier == 'quick' else 900))
